@@ -231,3 +231,32 @@ pub fn craft_draw<C: Suite>(s: frost::Scalar<C>) -> Option<Vec<u8>> {
     }
     None
 }
+
+// ---- which route direct library calls of the sweeps take: frost-core's generic functions, or the ciphersuite crate's own entry
+// points (thin wrappers the generic tests bypass). Decided per run (odd runs take the wrappers), so both are exercised and a
+// replay, which keeps seed and run, takes the same route.
+thread_local! {
+    static ROUTE_SUITE_CRATE: std::cell::Cell<bool> = const { std::cell::Cell::new(false) };
+}
+pub fn set_route(run: u64, rep: &mut RunReport) {
+    let suite_crate = run % 2 == 1;
+    ROUTE_SUITE_CRATE.with(|r| r.set(suite_crate));
+    rep.probe(if suite_crate { "route_suite_crate_entry_points" } else { "route_frost_core_generics" });
+}
+fn route_suite_crate() -> bool {
+    ROUTE_SUITE_CRATE.with(|r| r.get())
+}
+#[allow(clippy::type_complexity)]
+pub fn dkg_part2<C: Suite>(
+    secret: frost::keys::dkg::round1::SecretPackage<C>,
+    r1: &BTreeMap<Identifier<C>, frost::keys::dkg::round1::Package<C>>,
+) -> Result<(frost::keys::dkg::round2::SecretPackage<C>, BTreeMap<Identifier<C>, frost::keys::dkg::round2::Package<C>>), frost::Error<C>> {
+    if route_suite_crate() { C::w_dkg_part2(secret, r1) } else { frost::keys::dkg::part2::<C>(secret, r1) }
+}
+pub fn dkg_part3<C: Suite>(
+    s2: &frost::keys::dkg::round2::SecretPackage<C>,
+    r1: &BTreeMap<Identifier<C>, frost::keys::dkg::round1::Package<C>>,
+    r2: &BTreeMap<Identifier<C>, frost::keys::dkg::round2::Package<C>>,
+) -> Result<(KeyPackage<C>, PublicKeyPackage<C>), frost::Error<C>> {
+    if route_suite_crate() { C::w_dkg_part3(s2, r1, r2) } else { frost::keys::dkg::part3::<C>(s2, r1, r2) }
+}
